@@ -1,8 +1,8 @@
 /-
   RoModel.Drivers.Rate — `kind=rate` (property C20).
-    lim=native-log : the logical model `RateLimit.native` on the timeline → `out=`
-    lim=ulule      : `RateLimit.ulule` over the deterministic store of the harness → `out= ans=`
-    lim=native-rt  : the proved acceptor `RateLimit.accepts` on the trace the harness observed
+    op=native-log : the logical model `RateLimit.native` on the timeline → `out=`
+    op=ulule      : `RateLimit.ulule` over the deterministic store of the harness → `out= ans=`
+    op=native-rt  : the proved acceptor `RateLimit.accepts` on the trace the harness observed
                      (`in=`, `obs=`, `term=` written into the case line after the run) → `accept=`
 -/
 import RoModel.DriverCore
@@ -32,6 +32,8 @@ def parseEv (t : String) : Option (Ev Nat Nat) :=
 
 def parseTl (s : String) : Option (List (Ev Nat Nat)) :=
   if s == "-" || s == "" then some [] else (s.splitOn ",").mapM parseEv
+
+def keysOf (tl : List (Ev Nat Nat)) : List Nat := ((items tl).map (·.1)).eraseDups
 
 def renderOut : Out Nat Nat → String
   | .item k v => s!"{k}:{v}"
@@ -81,12 +83,18 @@ def why (c : Cfg) (inp : List (InItem Nat Nat)) (e : End) (obs : List (ObsItem N
   else "-"
 
 def run (c : Case) : String :=
-  match c.getD "lim" "?" with
+  match c.getD "op" "?" with
   | "native-log" =>
     match parseTl (c.getD "tl" "-") with
     | some tl =>
       let n := (c.getD "n" "1").toNat?.getD 1
-      s!"res {c.id} out={renderOuts (native n tl (parseEnd (c.getD "end" "-")))} late=0"
+      -- latetick=all: the harness can deliver the late tick of a group whose current window still
+      -- has quota left at the end (its Take is still listening: see go/harness/rate.go); those
+      -- are the late keys of the schedule
+      let late := if c.getD "latetick" "-" == "all" then
+          (keysOf tl).filter (fun k => decide (((windows (group k tl)).getLast?.getD []).length < n))
+        else []
+      s!"res {c.id} out={renderOuts (nativeSched n tl (parseEnd (c.getD "end" "-")) late)}"
     | none => s!"res {c.id} bad-script"
   | "ulule" =>
     match parseTl (c.getD "tl" "-"), (c.getD "store" "1/3/-1").splitOn "/" with
@@ -97,7 +105,7 @@ def run (c : Case) : String :=
       let sync := c.getD "mode" "sync" == "sync"
       let as := answers store sync inp
       let ans := if as.isEmpty then "-" else ",".intercalate (as.map renderAns)
-      s!"res {c.id} out={renderOuts (ulule store inp e)} ans={ans} late=0"
+      s!"res {c.id} out={renderOuts (ulule store inp e)} ans={ans}"
     | _, _ => s!"res {c.id} bad-script"
   | "native-rt" =>
     match c.get "in", c.get "obs" with
@@ -107,6 +115,7 @@ def run (c : Case) : String :=
         let cfg : Cfg := { n := (c.getD "n" "1").toNat?.getD 1, w := (c.getD "w" "1").toNat?.getD 1, slack := (c.getD "slack" "0").toNat?.getD 0 }
         let e := parseEnd (c.getD "end" "-")
         let term := parseEnd (c.getD "term" "-")
+        if c.getD "after" "0" != "0" then s!"res {c.id} accept=f why=after-terminal" else
         if accepts cfg inp e obs term then s!"res {c.id} accept=t why=-"
         else s!"res {c.id} accept=f why={why cfg inp e obs term}"
       | _, _ => s!"res {c.id} accept=f why=unparsable-observation"
